@@ -255,7 +255,8 @@ class MPUChunk:
 
     def maybe_write(self, write: PartsWriter, spill_sz: int) -> int:
         # if not last section keep 'min_write_sz' and 1 partId around after flush
-        rhs_keep, parts_to_keep = (0, 0) if self.is_final else (write.min_write_sz, 1)
+        # always keep 1 partId: more data can still be appended to the final section
+        rhs_keep, parts_to_keep = (0, 1) if self.is_final else (write.min_write_sz, 1)
         lhs_keep = 0 if self.started_write else self.lhs_keep
 
         if self.write_credits - 1 < parts_to_keep:
